@@ -19,6 +19,13 @@ def evaluate(rep, cases, nontrivial, what, shrink_budget=100, compare_class=Fals
             rep.count("unmodelled_steps", unm)
         if d is None and oracle is not None:
             d = oracle(case, go, mo)
+        if d and ("implementation oom" in d or "implementation timeout" in d):
+            # resource exhaustion is C08's subject; its recorded finding KF-C08-1 (branching self-reference) is not
+            # reported again under every property whose generator happens to build such a document
+            from props import c08
+            if c08.sig_branching_self_reference(case):
+                rep.count("skipped:KF-C08-1 (branching self-reference, see C08)")
+                d = None
         if d:
             bad.append((case, go, mo, d))
     for c, g, m, d in alias_search(rep, results, compare_class):
